@@ -214,6 +214,8 @@ class World:
             for r in self.regions:
                 self.session.open_circuit(("127.0.0.1", 5000), r.circuit_addr, self.transport)
         self.objects = self.session.objects
+        self._vocache = {}
+        self._cache_read = [False, False, False]
         for h in HANDLES[:2]:
             self.objects.track_region_objects(h)
         self.kills = []
@@ -227,10 +229,25 @@ class World:
         region.message_handler.handle(msg)
 
     def set_cache(self, r, entries):
+        """the viewer's object cache for this region holds these entries now.  The proxy reads it through load_cache() when the
+        connection to the region is set up (RegionHandshake) - once per connection, so again after the region was torn down"""
         from hippolyzer.lib.proxy.vocache import RegionViewerObjectCacheChain, RegionViewerObjectCache, ViewerObjectCacheEntry
         reg = self.regions[r]
-        reg.objects.object_cache = RegionViewerObjectCacheChain([RegionViewerObjectCache(
-            UUID(int=9), [ViewerObjectCacheEntry(local_id=l, crc=c, data=d) for (l, c), d in entries.items()])])
+        cache = RegionViewerObjectCache(UUID(int=9), [ViewerObjectCacheEntry(local_id=l, crc=c, data=d) for (l, c), d in entries.items()])
+        chain = self._vocache.setdefault(r, RegionViewerObjectCacheChain([cache]))
+        chain.region_caches[:] = [cache]
+        if not self._cache_read[r]:
+            by_handle = {self.regions[i].handle: ch for i, ch in self._vocache.items()}
+            orig = RegionViewerObjectCacheChain.__dict__["for_region"]
+            RegionViewerObjectCacheChain.for_region = classmethod(lambda cls, handle, cache_id, cache_dir=None: by_handle.get(handle) or cls([]))
+            try:
+                reg.objects.load_cache()
+            finally:
+                RegionViewerObjectCacheChain.for_region = orig
+            self._cache_read[r] = True
+
+    def cache_dropped(self, r):
+        self._cache_read[r] = False
 
     def close(self):
         if self.kind == "proxy":
@@ -545,6 +562,8 @@ class Run:
                 w.regions[hi].circuit.is_alive = True
             else:
                 w.regions[hi].objects.clear()
+            if self.kind == "proxy":
+                w.cache_dropped(hi)
         elif kind == "track":
             _, hi = op
             self.trace.append(op)
